@@ -3,3 +3,4 @@ import Helm.Props.C08
 import Helm.Props.C04
 import Helm.Props.C11
 import Helm.Props.C10
+import Helm.Props.C18
